@@ -6,6 +6,32 @@ ROOT = os.path.dirname(os.path.abspath(__file__))
 sys.path.insert(0, ROOT)
 import checkcfg
 
+TECH_EXTRA = {
+    "C05": "complete enumeration of the (position, window, digit, carry) space of the table recoding in both tiers",
+    "C12": "generated concurrent call plans (who runs what, concurrent-first or sequential-first) under the Go race "
+           "detector, differential against the same calls executed alone, watchdog for termination",
+    "C13": "stateful generation of call histories with a bit-exact deep fingerprint of configuration, package variables and "
+           "caller inputs before/after every call (invariant over the history)",
+    "C15": "complete boundary cross product in both tiers, run in two build configurations (assembly with ADX, noadx) "
+           "and against the portable generic code",
+    "C17": "complete enumeration of every block position x byte value of the 2-adic discrete log",
+    "C18": "all 256 domain indices and all 1022 table entries enumerated",
+    "C20": "complete enumeration of the (n, m) grid 0..2048 x 1..300 in both tiers; validity predicate over the set of "
+           "ranges (many correct splits are admitted)",
+}
+
+
+def technique(pid, c):
+    t = ("property-based testing: rapid v1.3.0 generators plus deterministic enumeration / forced cases, every case decided "
+         "by an explicit oracle (independent reference implementation, round-trip, metamorphic relation or validity predicate)")
+    if pid in TECH_EXTRA:
+        t += "; " + TECH_EXTRA[pid]
+    fz = c.get("thorough", {}).get("fuzz")
+    if fz:
+        t += "; Go native coverage-guided fuzzing with the oracle inside the target in the thorough tier (" + ", ".join(f["target"] for f in fz) + ")"
+    return c.get("technique", t)
+
+
 props = [json.loads(l) for l in open(os.path.join(ROOT, "properties.jsonl"))]
 checks, na = [], []
 for p in props:
@@ -28,7 +54,7 @@ for p in props:
         },
         "level_note": c.get("level_note", "trusted base: the independent reference implementation in harness/ref (validated at start-up "
                                             "against cross-implementation vectors), math/big, gnark-crypto base-field arithmetic, rapid v1.3.0"),
-        "technique": c.get("technique", "property-based testing (rapid) against an independent reference"),
+        "technique": technique(pid, c),
     }
     checks.append(entry)
 m = {
